@@ -101,13 +101,23 @@ func (e *ExchangeJSightSchema) buildContent() error {
 }
 
 func (e *ExchangeJSightSchema) CastToObject() *ExchangeJSightSchema {
+	return e.castToObject(map[string]struct{}{})
+}
+
+// castToObject follows references to user types; seen holds the names already followed: types that only refer to
+// each other ("@a" is "@b", "@b" is "@a", kept finite by "nullable") describe no object.
+func (e *ExchangeJSightSchema) castToObject(seen map[string]struct{}) *ExchangeJSightSchema {
 	switch e.ASTNode.TokenType {
 	case "object":
 		return e
 	case "reference":
+		if _, ok := seen[e.ASTNode.Value]; ok {
+			return nil
+		}
+		seen[e.ASTNode.Value] = struct{}{}
 		if ut, ok := e.catalogUserTypes.Get(e.ASTNode.Value); ok {
 			if ee, ok := ut.Schema.(*ExchangeJSightSchema); ok {
-				return ee.CastToObject()
+				return ee.castToObject(seen)
 			} else {
 				return nil
 			}
